@@ -30,7 +30,7 @@ def run(tier, seed, budget=None):
     mg = e1.rapidcheck_campaign(rep, PROP, _bin(), seed, nchunks, 8000, max_size=100, args=())
     if tier == "thorough" and not rep.violations:
         fz = build.build_client("c13_data_fuzz", [SRC], "fuzz-asan", cxx=True, extra=["-DC13_FUZZ", "-fsanitize=fuzzer"])
-        e1.libfuzzer_campaign(rep, PROP, mg, fz, seed, runs=1500000, max_len=1600, out_env="C13_FUZZ_OUT", corpus_dir=os.path.join(core.VERIF, "corpus", PROP))
+        e1.libfuzzer_campaign(rep, PROP, mg, fz, seed, runs=1500000, max_len=1600, out_env="C13_FUZZ_OUT", corpus_dir=os.path.join(core.VERIF, "corpus", PROP), total_time=(480 if not budget else max(10, budget * 0.5)))
     rep.assumptions += ["memory safety is observed through AddressSanitizer", "destructor blocks are observed after draining the serial destructor queue"]
     return rep.finish()
 
